@@ -1,4 +1,10 @@
 from . import gfi
 EXPLANATION = "GFI-contract algebra for simulate/assess."
-RULES = [gfi.dist_simulate, gfi.dist_assess, gfi.dist_generate, gfi.dist_update, gfi.dist_regenerate]
+def handlers(ctx):
+    for h in ("Simulate","Generate","Assess","Update","Regenerate"):
+        gfi.handler_rule(ctx, h)
+def fns(ctx):
+    for m in ("simulate","generate","assess","update","regenerate"):
+        gfi.fn_rule(ctx, m)
+RULES = [gfi.dist_simulate, gfi.dist_assess, gfi.dist_generate, gfi.dist_update, gfi.dist_regenerate, gfi.collision_helpers, handlers, fns, gfi.handler_stack_ownership]
 FLOOR = 5
